@@ -131,6 +131,64 @@ Theorem C10_oracle_holds_of_model :
 Proof. exact oracle_holds_of_model. Qed.
 Print Assumptions C10_oracle_holds_of_model.
 
+(* the predicate the `respawn` check evaluates (RespawnExec.oracle: per
+   operation — a Spawn/SpawnChild/concurrent Spawns on a taken id change nothing
+   but the duplicate count, on a free id run the Producer once; Stop unregisters;
+   a held shutdown keeps its actors registered; lookups agree — and, over the
+   history, every message sent to a registered actor is handled exactly once,
+   by that incarnation, in order) is true of the sequential machine's own
+   observations, for every history of the generators' domain:
+   [wf_hist n depth h] = all ids below n; SpawnChild p i only with
+   depth p < depth i (ids form a tree of paths); distinct message values; the
+   run stays inside the modelled domain (Registry.bad = false) and ends with
+   no actor held inside a handler *)
+From HV Require RespawnExec.
+From HV Require Import RespawnSound.
+Theorem C10_respawn_oracle_holds_of_model :
+  forall (n : nat) (depth : id -> nat) (h : list sop),
+    wf_hist n depth h -> RespawnExec.oracle (RespawnExec.model_case n h) = true.
+Proof. exact respawn_oracle_holds_of_model. Qed.
+Print Assumptions C10_respawn_oracle_holds_of_model.
+
+(* The two machines are one: an execution of the interleaving model in which
+   calls do not overlap (each add / stop / lookup runs its one or two lock-level
+   steps to completion before the next call of any thread starts) projects onto
+   the run of the sequential machine on the same calls in the same order
+   ([Rel]: registered ids = live actors, Start() calls per id = Producer runs,
+   losing adds per id = duplicate events) ... *)
+Theorem C10_nonoverlapping_runs_are_sequential :
+  forall (q : sst) (s : cst) (h : list sop) (s' : cst),
+    Rel q s -> nonoverlap s h s' -> Rel (srun q h) s'.
+Proof. exact nonoverlapping_runs_are_sequential. Qed.
+Print Assumptions C10_nonoverlapping_runs_are_sequential.
+
+(* ... and every history of Spawn / Stop / GetPID calls of the sequential
+   machine is such an execution (one thread issuing them in turn), which is a
+   run of the lock-level model, so that C10_unique_live applies to it *)
+Theorem C10_sequential_histories_are_nonoverlapping_runs :
+  forall (prog : list cop),
+    exists s, nonoverlap (cinit [prog]) (map tr prog) s /\ Rel (srun sinit (map tr prog)) s /\ cterminal s = true /\
+              creach (cinit [prog]) s.
+Proof.
+  intros prog. destruct (sequential_histories_are_nonoverlapping_runs prog) as (s & H1 & H2 & H3).
+  exists s. split_and!; try done. by eapply nonoverlap_creach.
+Qed.
+Print Assumptions C10_sequential_histories_are_nonoverlapping_runs.
+
+(* C10_duplicate_is_noop at lock level: an add that overlaps no other call and
+   finds its id taken leaves the registry, the started and the stopped processes
+   as they were and adds one duplicate event — and that is the sequential
+   machine's losing Spawn *)
+Theorem C10_duplicate_is_noop_at_lock_level :
+  forall (q : sst) (s : cst) (t : nat) (i : id) (rest : list cop),
+    Rel q s -> c_thr s !! t = Some (MIdle, CAdd i :: rest) -> is_live q i = true ->
+    exists s', complete s t = Some s' /\ Rel (sstep q (OSpawn i)) s' /\
+               c_reg s' = c_reg s /\ c_started s' = c_started s /\ c_stopped s' = c_stopped s /\
+               c_dup s' = length (c_ids s) :: c_dup s /\
+               procs (sstep q (OSpawn i)) = procs q /\ runs (sstep q (OSpawn i)) = runs q.
+Proof. exact nonoverlapping_duplicate_add. Qed.
+Print Assumptions C10_duplicate_is_noop_at_lock_level.
+
 (** * C11 — request/response: correlated, at most once, bounded by the timeout *)
 From HV Require Import Response ResponseProofs.
 
@@ -249,3 +307,26 @@ Theorem C11_respond_never_blocks_refuted_before_D16 :
             forall s', rreach c s s' -> rstep c s' (LPut 0) = None \/ pend s' !! 0 <> Some (0, 3, 0).
 Proof. exact three_replies_block_the_responder. Qed.
 Print Assumptions C11_respond_never_blocks_refuted_before_D16.
+
+(* The liveness half of "bounded by the timeout", in logical time.  The model
+   has no fairness, so the claim is made for urgent runs ([ureach]): time does
+   not advance while a parked Result() has reached its deadline or a decided
+   Result() has not returned — what the runtime timer and the deferred return
+   provide.  In every urgent run a call of Result() that began at t0 and has not
+   returned yet sees a clock within [t0, t0 + timeout]; a parked call has not
+   passed its deadline; so Result() returns no later than its deadline. *)
+Theorem C11_result_waits_at_most_timeout_in_logical_time :
+  forall (c : cfg) (s : rst) (r : req) (t0 : nat),
+    ureach c s -> began s r = Some t0 -> (forall res, phase s r <> Returned res) ->
+    t0 <= clock s <= t0 + timeout c /\ (forall d, phase s r = Waiting d -> d = t0 + timeout c /\ clock s <= d).
+Proof. exact result_waits_at_most_timeout. Qed.
+Print Assumptions C11_result_waits_at_most_timeout_in_logical_time.
+
+(* urgency never stops the clock for ever: whenever it forbids a Tick, a step
+   of that Result() — the timeout firing, or the return — is enabled *)
+Theorem C11_urgent_step_enabled :
+  forall (c : cfg) (s : rst) (r : req),
+    (exists d, phase s r = Waiting d /\ d <= clock s) \/ (exists res, phase s r = Decided res) ->
+    exists l s', (l = LTimeout r \/ l = LReturn r) /\ rstep c s l = Some s'.
+Proof. exact urgent_step_enabled. Qed.
+Print Assumptions C11_urgent_step_enabled.
